@@ -12,13 +12,21 @@
    robsd-regress-html all go through steps_parse).  What a reader that does not lock can see is
    stated too (C02_file_at_every_state) and is not always a committed prefix
    (C02_reader_without_lock_refuted).
-   The order of the calls in step.c / robsd-step.c is regenerated from the source (Gen_Lock) and
-   proved to be the order of the transition system (C02_source_order_is_model_order).
+   The order of the calls in step.c / robsd-step.c is regenerated from the source (Gen_Lock).  Each call
+   is given its meaning on the shared state (LockInterp.exec_op: the assumptions about flock, read,
+   fopen("we"), fwrite, fclose, LOCK_UN, stated per call) and the calls between two sync points,
+   executed from any state, ARE the transition [LockDefs.step] makes there
+   (C02_source_calls_are_model_steps); every interleaving of processes executing these lists is a run of
+   the transition system (C02_source_interleavings_are_model_runs), so mutual exclusion, committed prefixes
+   and serialisability hold of them (C02_source_interleavings_are_serialised); the hand-written automaton [walk1] of the earlier tie
+   (C02_source_order_is_model_order: the lists are accepted by it - a pin) passes the sync points at
+   exactly those counters (C02_walk_agrees_with_step).
    Assumed (kernel): flock grants the lock only when it is free; the operations
    between two sync points are atomic; a crash or a refused write inside the critical section is
    outside the property's quantifier (schedules only) - what a refused write does is
    C02_refused_write_under_lock_refuted. *)
-From Robsd Require Import Lock.LockSpec Lock.LockProofs Lock.LockOracle Lock.LockBridge Lock.LockOps Lock.LockTie.
+From Robsd Require Import Lock.LockSpec Lock.LockProofs Lock.LockOracle Lock.LockBridge Lock.LockOps Lock.LockTie
+  Lock.LockInterp Lock.LockRefine Lock.LockRefused.
 From Robsd Require Import Step.StepSpec Step.StepRows Step.StepWrite Step.StepHistory Step.StepFault Step.StepExit0
   Step.StepRenumber Step.StepLatest Step.StepRead Interp.InterpSpec.
 From RobsdGen Require Import Gen_Step Gen_Lock.
@@ -157,6 +165,63 @@ Theorem C02_command_call_order :
 Proof. exact command_call_order. Qed.
 Print Assumptions C02_command_call_order.
 
+(* THE TIE, derived: the generated call lists, cut at the sync points, executed call by call under the
+   per-call meaning [exec_op] from ANY state in which the caller stands at the counter of the previous
+   point, give the state [LockDefs.step] gives (from PTruncated: the steps through all intermediate
+   contents), are blocked exactly when [step] is, and the counters chain from PStart to PDone: for a
+   command that rewrites the file and for one that does not (a reader, a rejected write) *)
+Theorem C02_source_calls_are_model_steps : forall upd mids,
+  (snd (segments [] writer_calls) = [] /\ chain_sim upd mids true PStart (fst (segments [] writer_calls))) /\
+  (snd (segments [] reader_calls) = [] /\ chain_sim upd mids false PStart (fst (segments [] reader_calls))).
+Proof.
+  exact (fun upd mids => conj (writer_segments_are_model_steps upd mids) (reader_segments_are_model_steps upd mids)).
+Qed.
+Print Assumptions C02_source_calls_are_model_steps.
+
+(* [step] cannot distinguish the states that simulation identifies (equal up to the extension of the
+   per-process fields) *)
+Theorem C02_step_respects_state_equivalence : forall upd mids a b p,
+  steq a b -> osteq (step upd mids a p) (step upd mids b p).
+Proof. exact step_respects_steq. Qed.
+Print Assumptions C02_step_respects_state_equivalence.
+
+(* THE REFINEMENT: processes that execute the generated call lists (after the read: write_path if the command
+   rewrites the file, free_path if not), interleaved by ANY schedule at the granularity of the sync points -
+   the granularity at which the harness drives the real processes - reach a state that some run of the
+   transition system reaches (equal up to the extension of the per-process fields) *)
+Theorem C02_source_interleavings_are_model_runs : forall upd mids f0 sched,
+  exists sched', steq (impl_run upd mids (init f0) sched) (run upd mids (init f0) sched').
+Proof. exact source_interleavings_are_model_runs. Qed.
+Print Assumptions C02_source_interleavings_are_model_runs.
+
+(* hence, for the call order that stands in step.c / robsd-step.c today: mutual exclusion, every process that
+   has read has read the complete result of a prefix of the lock order, and a quiescent state holds the result
+   of applying the processes one at a time in lock order, each exactly once *)
+Theorem C02_source_interleavings_are_serialised : forall upd mids f0 sched,
+  let s := impl_run upd mids (init f0) sched in
+  (forall p q, mid (pcs s p) -> mid (pcs s q) -> p = q) /\
+  (forall p, has_read (pcs s p) -> exists pre post, log s = pre ++ p :: post /\ snaps s p = eff upd f0 pre) /\
+  ((forall q, pcs s q = PDone \/ before_lock (pcs s q)) ->
+     lock s = None /\ file s = eff upd f0 (log s) /\ NoDup (log s) /\ (forall q, In q (log s) <-> pcs s q = PDone)).
+Proof. exact source_interleavings_are_serialised. Qed.
+Print Assumptions C02_source_interleavings_are_serialised.
+
+(* the automaton of C02_source_order_is_model_order passes the sync points at the counters the points stand
+   for, which are the counters [step] reaches by the theorem above; and the two call lists are what main
+   and action_write of robsd-step.c (generated) expand to *)
+Theorem C02_walk_agrees_with_step :
+  (forall c n c', walk1 c (FPoint n) = Some c' -> point_pc n = Some c') /\
+  points PStart writer_calls =
+    map (fun sg => (snd sg, match point_pc (snd sg) with Some c => c | None => PStart end)) (fst (segments [] writer_calls)) /\
+  points PStart reader_calls =
+    map (fun sg => (snd sg, match point_pc (snd sg) with Some c => c | None => PStart end)) (fst (segments [] reader_calls)) /\
+  flat_map expand_main main_write_calls = writer_calls /\
+  flat_map expand_main main_read_calls = reader_calls.
+Proof.
+  exact (conj walk1_point (conj (proj1 walk_agrees_with_step) (conj (proj2 walk_agrees_with_step) command_calls_expand))).
+Qed.
+Print Assumptions C02_walk_agrees_with_step.
+
 (* ---- what breaks it -------------------------------------------------------------------------------------------- *)
 
 (* without the lock the same processes lose an update *)
@@ -190,6 +255,26 @@ Theorem C02_refused_write_under_lock_refuted :
   snd r4 <> Some (model_step f2 ([52], fw_full [102;111;117;114])).
 Proof. exact refused_write_under_lock_refuted. Qed.
 Print Assumptions C02_refused_write_under_lock_refuted.
+
+(* what the others experience after a refusal (or after the holder was killed between fopen("we") and
+   fclose - k = 0): the waiter that gets the lock next reads exactly the first k bytes of the new content *)
+Theorem C02_waiter_reads_cut : forall upd mids k s p q c s1 s2 s3 s4,
+  p <> q -> pcs s q = POpened -> upd p (snaps s p) = Some c ->
+  step_refused upd k s p = Some s1 ->
+  step upd mids s1 p = Some s2 -> step upd mids s2 q = Some s3 -> step upd mids s3 q = Some s4 ->
+  file s1 = firstn k c /\ lock s2 = None /\ lock s3 = Some q /\ snaps s4 q = firstn k c.
+Proof. exact waiter_reads_cut. Qed.
+Print Assumptions C02_waiter_reads_cut.
+
+(* and if that content does not parse, the run is poisoned: under EVERY schedule of robsd-step commands
+   the file never changes again and every command exits 1 *)
+Theorem C02_poisoned_run : forall ops mids f, parse_file f = None ->
+  forall sched s, quiet_on f s ->
+    quiet_on f (run (ops_upd ops) mids s sched) /\
+    file (run (ops_upd ops) mids s sched) = f /\
+    (forall p o, nth_error ops p = Some o -> fst (op_out o f) = 1).
+Proof. exact poisoned_run. Qed.
+Print Assumptions C02_poisoned_run.
 
 (* non-vacuity: two writers and a reader interleaved; the second writer is blocked until the first unlocks *)
 Example C02_example :
